@@ -41,7 +41,7 @@ def run(rep, tier, seed):
     rng = random.Random(seed)
     quick = tier == 'quick'
     # oracle hypotheses
-    hyp = corr_g2o.check_oracle_hypotheses(rng, 400 if quick else 20000)
+    hyp = corr_g2o.check_oracle_hypotheses(rng, 1000 if quick else 20000)
     rep.cov['oracle_hypotheses'] = {k: (v if not isinstance(v, list) else v[:5]) for k, v in hyp.items()}
     rep.obligation('oracle hypotheses parse(print x)=x, parse_id(print_id i)=i, tokens whitespace-free, identity offset = +0.0 '
                    'hold bitwise on %d sampled numbers' % hyp['parse_print'], not hyp['fail'], '; '.join(hyp['fail'][:3]))
@@ -51,8 +51,8 @@ def run(rep, tier, seed):
                    hyp['normq_idem_max_ulp'] <= 2.0, 'max deviation %r ulp' % hyp['normq_idem_max_ulp'])
     hyp_ok = not hyp['fail'] and not hyp['wrap_idem_fail'] and hyp['normq_idem_max_ulp'] <= 2.0
     # correspondence 4.4, export side + canon; import side (shared with C14, smaller here)
-    ce = corr_g2o.run_export(rng, 60 if quick else 1500, 'c13_exp')
-    ci = corr_g2o.run_import(rng, 24 if quick else 400, 'c13_imp')
+    ce = corr_g2o.run_export(rng, 150 if quick else 1500, 'c13_exp')
+    ci = corr_g2o.run_import(rng, 40 if quick else 400, 'c13_imp')
     for nm, c in (('export+canon', ce), ('import', ci)):
         c_ok = not c['disagreements'] and not c['coq_errors'] and c['evaluations'] > 0
         rep.obligation('correspondence 4.4 (%s): G2OModel evaluated in Coq agrees with graphslam on %d cases' % (nm, c['evaluations']),
@@ -63,7 +63,7 @@ def run(rep, tier, seed):
                                  'import': {k: ci[k] for k in ('evaluations', 'agree', 'stats')},
                                  'coq_errors': len(ce['coq_errors']) + len(ci['coq_errors']), 'custom_edge_types': corr_g2o.CUSTOM_SRC}
     # direct oracle: 1..5 cycles
-    n, fails, st = corr_g2o.oracle_roundtrip(rng, 40 if quick else 1500, cycles=5)
+    n, fails, st = corr_g2o.oracle_roundtrip(rng, 120 if quick else 1500, cycles=5)
     flip = st.pop('chi2_sign_flip_example', None)
     rep.cov['oracle'] = st
     rep.cov['evaluations'] = ce['evaluations'] + ci['evaluations'] + n
